@@ -47,6 +47,7 @@ the rules see:
   S25 decided tests       inside `if isinstance(x, T):` a nested test `isinstance(x, T)` is true (false in the `else`), x not re-bound
   S26 flag variables      `if c: A; flag = True else: B; flag = False` ; REST(flag)  ->  REST moves into both branches
   S28 star calls          `a, b, c = E` ; `f(a, b, c)`  ->  `f(*E)`   (a, b, c used nowhere else)
+  S30 while               `while c: B`  ->  `while True: if not c: break ; B`
   S12 literal loops       `for x in (a, b): S(x)`  ->  `S(a)` ; `S(b)`   (at most four simple elements, no
                           `break`, `continue` only as leading guards, x not used afterwards)
 
@@ -271,7 +272,7 @@ class _Expr(ast.NodeTransformer):
         opname = None
         if isinstance(fn_, ast.Attribute) and isinstance(fn_.value, ast.Name) and fn_.value.id == "operator":
             opname = fn_.attr
-        elif isinstance(fn_, ast.Name) and fn_.id in ("truediv", "floordiv"):
+        elif isinstance(fn_, ast.Name) and fn_.id in ("truediv", "floordiv", "or_", "and_"):
             opname = fn_.id
         if opname and len(node.args) == 2 and not node.keywords:
             if opname in self._OPERATOR_BIN:
@@ -696,6 +697,9 @@ class Canon:
             r8 = self._unwalrus(s)
             if r8 is not None:
                 return r8, 0
+        if isinstance(s, ast.Assign) and len(s.targets) == 1 and isinstance(s.targets[0], ast.Name) and isinstance(s.value, ast.Name) \
+                and s.value.id == s.targets[0].id:
+            return [], 0  # `x = x`
         if isinstance(s, ast.AnnAssign) and s.value is None and isinstance(s.target, ast.Name):
             return [], 0  # a bare local annotation does nothing at run time
         if isinstance(s, ast.If) and isinstance(s.test, ast.Constant) and isinstance(s.test.value, (bool, type(None))):
@@ -946,6 +950,12 @@ class Canon:
             if r7 is not None:
                 return r7, 0
             return None
+        if isinstance(s, ast.While) and not s.orelse and not (isinstance(s.test, ast.Constant) and s.test.value is True):
+            # S30 `while c: B`  ->  `while True: if not c: break ; B`
+            guard = _loc(ast.If(test=negate(s.test), body=[_loc(ast.Break(), s)], orelse=[]), s)
+            s.test = _loc(ast.Constant(value=True), s)
+            s.body = [guard] + s.body
+            return [s], 0
         if isinstance(s, (ast.For, ast.AsyncFor)) and not s.orelse:
             # S23 a loop over a conditional iterable is a conditional of loops; a loop over `()` is nothing
             if isinstance(s.iter, ast.IfExp) and is_bool_expr(s.iter.test) or (isinstance(s.iter, ast.IfExp) and _simple(s.iter.test)):
@@ -966,8 +976,13 @@ class Canon:
             ):
                 g = s.iter.generators[0]
                 inner_names = _target_names(g.target)
-                facts = NameFacts(self.fn)
-                if not (inner_names & (set(facts.stores) | set(facts.loads) | facts.special)):
+                # the generator's own variable must not exist outside the generator expression
+                outside = 0
+                inside_ids = {id(n) for n in ast.walk(s.iter)}
+                for n in _own_nodes(self.fn):
+                    if isinstance(n, ast.Name) and n.id in inner_names and id(n) not in inside_ids:
+                        outside += 1
+                if outside == 0:
                     bind = _loc(ast.Assign(targets=[ast.Name(id=s.target.id, ctx=ast.Store())], value=s.iter.elt), s)
                     s.target = _store(g.target)
                     s.iter = g.iter
